@@ -5,8 +5,8 @@ from ..interp_prop import InterpProp
 
 class C02(InterpProp):
     id = 'C02'
-    quick_cases = 200
-    thorough_cases = 4000
+    quick_cases = 1000
+    thorough_cases = 40000
     n_ops = 40
     rule = ('random well-formed charts biased to targets nested in orthogonal regions, history states, ancestors '
             'and self-loops × histories of ~40 ops; oracle: Legal(configuration) after every execute_once that '
